@@ -103,16 +103,18 @@ CLAIMED = {
         "technique": "Coq proof (identity-consistency invariant over leaf substitution; cipher laws as hypotheses) + differential correspondence with a stand-in eyaml",
     },
     "C07": {
-        "text": ("18 theorems (Coq, no axioms) over a model of yaml_paths.search_for_paths / yield_children / "
+        "text": ("21 theorems (Coq, no axioms) over a model of yaml_paths.search_for_paths / yield_children / "
                  "search_anchor / process_yaml_file / print_results: the search is sound (only satisfying places "
                  "are reported), complete for value search and complete up to the listed finding F-C07-1 with "
                  "key-name search (a matching key hides what lies beneath it), reports each place at most once; "
                  "under each of the four alias-option combinations every visible satisfying place is reported and "
                  "no excluded aliased repeat is (guards: anchor names not redefined = F-C07-4, anchors exposed; "
                  "each with a _refuted witness); --expand reports exactly the leaf descendants; printing emits "
-                 "exactly the de-duplicated results.  'Every printed path resolves' is proved for the reported "
-                 "location only; the text -> segments -> location link is judged on the real Processor for every "
-                 "reported path of every case (docs/C07.md).  Tie: documents incl. anchors/aliases/merge keys x nine "
+                 "exactly the de-duplicated results; C07_resolves_text_partial - the reported text is the built "
+                 "path of the matched location, str() leaves it unchanged, and the required query of the "
+                 "evaluator model on it yields exactly the node there (guards pb_safe = F-C07-2 and no anchored "
+                 "sequence element = F-C07-4; _refuted witnesses); also judged on the real Processor for every "
+                 "reported path of every case.  Tie: documents incl. anchors/aliases/merge keys x nine "
                  "operators x inversion x options x both notations."),
         "design_ref": "DESIGN.md section 4 (C07), docs/C07.md",
         "note": NOTE_COMMON + "  Merge-key membership of map keys is taken from ruamel (side table from docenc.merge_table).",
@@ -164,14 +166,15 @@ CLAIMED = {
         "technique": "Coq proof (per-token lemmas over the rule-list parser, closed over all 256 characters; induction over segment lists) + differential correspondence",
     },
     "C06": {
-        "text": ("29 theorems (Coq, no axioms) over a model of differ.py (type dispatch, dicts, lists in all 2 x 5 "
+        "text": ("32 theorems (Coq, no axioms) over a model of differ.py (type dispatch, dicts, lists in all 2 x 5 "
                  "array/AoH modes, the zip_longest loop, the pop-a-DELETE-to-make-a-CHANGE step, both synchronisers, "
                  "sets, purge/add-everything, DifferConfig lookups, print selection and exit state): truthful "
                  "entries, SAME equal / CHANGE differs, leaf coverage (guard: no null facing a container with "
                  "content = listed finding F3), leaf-level accounting as permutations in every mode and "
                  "configuration, non-SAME iff the documents differ as data for all ten uniform mode pairs incl. "
                  "key/deep (guards: no explicit tags = F1, well-keyed lists = F4), reflexivity, exit state = 1 iff "
-                 "a non-SAME entry; every guard with a _refuted witness and a non-vacuity Example.  Per-path "
+                 "a non-SAME entry; an entry's path text resolves (evaluator model) to the value the truthfulness "
+                 "theorem speaks about (guard = F5); every guard with a _refuted witness and a non-vacuity Example.  Per-path "
                  "[rules]/[keys] configurations are covered by the accounting theorem and the judge, not by the "
                  "iff theorem.  Tie: pairs identical / derived by edits / unrelated x all mode pairs x "
                  "configurations; entries compared as multisets of (action, parsed path, lhs, rhs)."),
@@ -299,16 +302,22 @@ CLAIMED = {
         "technique": "Coq proof (no-mutation stream invariant; embedding/frame lemma for creation) + snapshot differential correspondence",
     },
     "C02": {
-        "text": ("5 theorems (Coq, no axioms) over the evaluator model: for every real result of every path of the "
+        "text": ("13 theorems (Coq, no axioms) over the evaluator model and the path builder: for every real result of every path of the "
                  "C01 fragment (slices only as the last segment) the parent holds the node under the parentref "
                  "(hash: membership of the pair with an equal key; sequence: the element at the index; set: "
                  "membership) and the ancestry chain walks from the document root, each link a child step, to the "
-                 "node (C02_results_located, C02_parentref, C02_ancestry).  The re-resolution of the reported PATH "
-                 "TEXT is not proved yet: it is checked on every run - model vs real code on parent identity, "
-                 "parentref, reported path (as parsed segments) and the full ancestry of every result, and a "
-                 "judge that indexes the real parent, walks the real ancestry and re-queries str(path) in both "
-                 "notations; known findings F26 (keys the path syntax cannot name) and F27 ([&anchor] paths "
-                 "matching other nodes)."),
+                 "node (C02_results_located, C02_parentref, C02_ancestry).  Path text: C02_path_resolves_partial - "
+                 "for every location whose keys are safe (computable guard pb_safe = exactly the complement of "
+                 "listed finding F26: non-empty, no *, no leading &, no back-slash before a back-slash / "
+                 "separator / ( [ ] blank quote, integer keys without a string twin, no leading / in dot "
+                 "notation; keys with EVERY escapable character are safe) the text the library builds "
+                 "(escape_path_section per key, [n] per index), fed back, parses to one KEY/INDEX segment per "
+                 "step and the required query yields exactly the node there, in both notations, also for "
+                 "str() of the reported path; seven _refuted witnesses, one per failing clause.  That every "
+                 "handler's reported path IS that text is tied on every located result, not proved.  Tie: "
+                 "parent identity, parentref, reported path, full ancestry of every result; the judge "
+                 "indexes the real parent, walks the real ancestry and re-queries str(path) in both notations; "
+                 "F27 ([&anchor] paths matching other nodes)."),
         "design_ref": "DESIGN.md section 4 (C02), docs/C02.md",
         "note": NOTE_COMMON,
         "technique": "Coq proof (coordinate invariant through every handler, induction on path fuel and data) + differential correspondence + re-resolution judge",
